@@ -309,6 +309,7 @@ func (t *table) startWALProcessing(walOffset wal.Offset) error {
 		return fmt.Errorf("Unable to obtain WAL reader: %v", walErr)
 	}
 
+	verifPoint(t.db, t.Name, "table-start", walOffset)
 	go t.processWALInserts()
 	return nil
 }
@@ -388,6 +389,9 @@ func (t *table) iterate(ctx context.Context, outFields core.Fields, includeMemSt
 		onValue:         onValue,
 		offsetsCh:       make(chan common.OffsetsBySource, 1),
 		errCh:           make(chan error, 1),
+	}
+	if verifIntercept(it) {
+		return <-it.offsetsCh, <-it.errCh
 	}
 	t.db.requestedIterations <- it
 	return <-it.offsetsCh, <-it.errCh
